@@ -176,7 +176,7 @@ def run_shard(ctx):
         check_key(ctx, K.new_jwk(kind, stratum), rng.choice(K.REPS), rng.choice(K.EXTRAS), rng)
 
 
-REQUIRE = [("thumbprints", 1000, "thumbprints compared"), ("kids", 300, "kid assignments"), ("forced_leading_zero_x", 8, "EC x with a leading zero octet"),
+REQUIRE = [("thumbprints", 400, "thumbprints compared"), ("kids", 120, "kid assignments"), ("forced_leading_zero_x", 8, "EC x with a leading zero octet"),
            ("forced_leading_zero_y", 8, "EC y with a leading zero octet")]
 
 
